@@ -345,6 +345,32 @@ impl Property for C10 {
     fn run(&self, case: &Case) -> CaseResult {
         run_case(case)
     }
+    fn known_signature(&self, case: &Case) -> Option<String> {
+        known_shape(case)
+    }
+}
+
+/// Shape of the recorded (open) finding "spill deadlock of the shared multi-producer spill pool":
+/// needs >= 2 producers (inputs) running truly concurrently (multi-thread runtime), the shared
+/// (non-preserve-order) spill pool and a memory limit that makes batches spill.
+fn known_shape(case: &Case) -> Option<String> {
+    if case.threads > 0 && case.mem.is_some() && case.inputs.len() >= 2 && !case.preserve_order {
+        return Some("repartition:mpsc-spill-deadlock:multi-thread".into());
+    }
+    None
+}
+
+/// Debug aid: with VF_JOIN_SAVE_TIMEOUTS set, cases that hit the per-poll timeout are written to
+/// /verif/replays/c10-timeout-*.json so that a hang can be replayed and triaged.
+fn save_timeout(case: &Case) {
+    if std::env::var_os("VF_JOIN_SAVE_TIMEOUTS").is_none() {
+        return;
+    }
+    if let Ok(text) = serde_json::to_string_pretty(case) {
+        let dir = verif_root().join("replays");
+        let _ = std::fs::create_dir_all(&dir);
+        let _ = std::fs::write(dir.join(format!("c10-timeout-{:016x}.json", fnv1a(text.as_bytes()))), text);
+    }
 }
 
 fn canonical_splits(splits: &[Vec<Val>], opts: &[(bool, bool)]) -> Vec<Vec<Val>> {
@@ -588,7 +614,16 @@ pub fn run_case(case: &Case) -> CaseResult {
     }
     let reads = match res {
         Err(_) => return CaseResult::inconclusive("timeout: run exceeded 30 s").labels(labels),
-        Ok(Err(Fail::Timeout(m))) => return CaseResult::inconclusive(format!("timeout: {m}")).labels(labels),
+        Ok(Err(Fail::Timeout(m))) => {
+            save_timeout(case);
+            if known_shape(case).is_some() && spilled > 0 {
+                // only reachable when replaying the stored case of the known finding (the shape is
+                // excluded from generation): a stall of 10 s on a few dozen rows with every runtime
+                // worker parked is the recorded deadlock
+                return CaseResult::violation(format!("hang: {m} (spilled batches: {spilled})")).labels(labels);
+            }
+            return CaseResult::inconclusive(format!("timeout: {m}")).labels(labels);
+        }
         Ok(Err(Fail::Harness(m))) => return CaseResult::inconclusive(format!("harness: {m}")).labels(labels),
         Ok(Err(Fail::Df(e))) => {
             if case.mem.is_some() && is_resources_exhausted(&e) {
